@@ -42,6 +42,8 @@ type ClientOperationTemplate struct {
 	IsBodyReader  bool
 	// RequestContentType - media type of the request body sent by the client
 	RequestContentType string
+	// RequestBodySliceType - Go type of a request body that is an array defined in place ("" otherwise)
+	RequestBodySliceType string
 
 	Responses       []ClientResponseTemplate
 	DefaultResponse *ClientResponseTemplate
@@ -65,6 +67,12 @@ func NewClientOperation(o *Operation) ClientOperationTemplate {
 		if requestBody.Value().Content.Has("application/json") {
 			c.IsRequestBody = true
 			c.RequestContentType = "application/json"
+			if o.Body.IsSlice && o.Body.GoTypeFn != nil {
+				gt, err := o.Body.GoTypeFn()
+				if err == nil {
+					c.RequestBodySliceType = gt
+				}
+			}
 		} else if len(requestBody.Value().Content.List) > 0 {
 			c.IsBodyReader = true
 			c.RequestContentType = requestBody.Value().Content.List[0].Name
